@@ -89,7 +89,7 @@ class LazyFloor:
         acc = mk(hi)
         for k in range(hi - 1, lo - 1, -1):
             atom = self.x < k + 1
-            CELL_ATOMS.append(atom)
+            register_cell_atom(atom)
             acc = ite(atom, mk(k), acc)
         return acc
 
@@ -120,33 +120,30 @@ def strip_tags(term):
     """remove all vtag(k, .) wrappers (identity semantics)"""
     if isinstance(term, XR):
         return XR(strip_tags(term.ninf), strip_tags(term.val))
-    if not isinstance(term, z3.ExprRef):
+    if not isinstance(term, z3.ExprRef) or _TAGN[0] == 0:
         return term
-    memo = {}
-
-    def rw(e):
-        i = e.get_id()
-        if i in memo:
-            return memo[i]
-        if e.num_args() == 0:
-            r = e
-        elif z3.is_app(e) and e.decl().name() == "vtag" and e.num_args() == 2:
-            r = rw(e.arg(1))
-        else:
-            ch = [rw(c) for c in e.children()]
-            r = e if all(a.get_id() == b.get_id() for a, b in zip(ch, e.children())) else e.decl()(*ch)
-        memo[i] = r
-        return r
-
-    import sys as _s
-
-    _s.setrecursionlimit(max(_s.getrecursionlimit(), 20000))
-    return rw(term)
+    return z3.substitute_funs(term, (VTAG, z3.Var(1, z3.RealSort())))
 
 
 AMBIENT: list = []  # harness assumptions; used only to drop impossible -inf flags (simplify_x)
 FLOOR_RANGE = [None]  # optional (lo, hi) for unclipped floors, see LazyFloor.mat
 CELL_ATOMS: list = []  # atoms `x < k+1` created when a clipped floor is materialised
+CELL_IDS: set = set()
+
+
+def register_cell_atom(atom):
+    if isinstance(atom, z3.ExprRef):
+        CELL_ATOMS.append(atom)
+        CELL_IDS.add(atom.get_id())
+
+
+def is_cell_ite(x):
+    return (
+        isinstance(x, z3.ExprRef)
+        and z3.is_app_of(x, z3.Z3_OP_ITE)
+        and not z3.is_bool(x)
+        and x.arg(0).get_id() in CELL_IDS
+    )
 SIDE: list = []  # side conditions (z3 Bool) that must follow from the harness assumptions
 
 
@@ -423,6 +420,17 @@ def _arith(op, a, b):
         return map_tree(lambda v: _arith(op, a, v), b)
     if op == "rem":
         raise Unsupported("symbolic rem")
+    # piecewise normal form: arithmetic is pushed into if-then-else terms over interpolation-cell
+    # atoms, so values stay "ite(cell condition, polynomial, polynomial)"
+    if op in ("add", "sub", "mul", "div"):
+        if is_cell_ite(a):
+            c_, x_, y_ = a.children()
+            if is_cell_ite(b) and b.arg(0).get_id() == c_.get_id():
+                return ite(c_, _arith(op, x_, b.arg(1)), _arith(op, y_, b.arg(2)))
+            return ite(c_, _arith(op, x_, b), _arith(op, y_, b))
+        if is_cell_ite(b) and op != "div":
+            c_, x_, y_ = b.children()
+            return ite(c_, _arith(op, a, x_), _arith(op, a, y_))
     if not is_sym(b):
         if op in ("add", "sub") and b == 0 and not isinstance(b, bool):
             return a
@@ -1149,10 +1157,16 @@ def _gather(trace, args, avals, params, prim):
         for k, od in enumerate(off_operand_dims):
             full[od] = _arith("add", full[od], o[k])
 
+        symbolic_path = [False]
+
         def pick(dim, prefix):
             if dim == operand.ndim:
                 if any(p < 0 or p >= operand.shape[d] for d, p in enumerate(prefix)):
-                    if mode_name == "FILL_OR_DROP":
+                    # FILL mode: fill value; other modes: such a leaf of a symbolic index tree sits under
+                    # an (expected to be unsatisfiable) branch condition; an unconstrained fresh value is
+                    # a sound over-approximation (if the branch were feasible, obligations fail and the
+                    # replay decides)
+                    if mode_name == "FILL_OR_DROP" or symbolic_path[0]:
                         return _fresh_fill(avals[0].dtype)
                     raise Unsupported(f"gather out of bounds {prefix}")
                 return operand[tuple(prefix)]
@@ -1161,6 +1175,7 @@ def _gather(trace, args, avals, params, prim):
                 return pick(dim + 1, prefix + [int(i)])
             lv = tree_leaves(i)
             if lv is not None:
+                symbolic_path[0] = True
                 return map_tree(lambda k: pick(dim + 1, prefix + [k]), i)
             if mode_name == "FILL_OR_DROP":
                 # symbolic index may be out of range: range -1..n
@@ -1532,12 +1547,29 @@ class PathCapExceeded(Exception):
     pass
 
 
+class PathCondition(list):
+    """list of conjuncts; `marks[t]` = number of conjuncts recorded up to the end of period t"""
+
+    def __init__(self, conj, marks=()):
+        super().__init__(conj)
+        self.marks = list(marks)
+
+    def upto(self, t):
+        if t < len(self.marks):
+            return list(self[: self.marks[t]])
+        return list(self)
+
+
+ACTIVE_FORKER = [None]
+
+
 class Forker:
     def __init__(self, base=(), prefix=()):
         self.base = list(base)
         self.prefix = list(prefix)
         self.trail = []  # (flat terms, chosen values)
         self.pc = []
+        self.marks = []  # len(pc) at the end of each simulated period (set by the harness' log handler)
 
     def concretize(self, obj, aval):
         flat = [force(t) for t in obj.reshape(-1)]
@@ -1630,11 +1662,13 @@ class Session:
                 raise PathCapExceeded(cap)
             fk = Forker(base=base, prefix=prefix)
             self.trace.forker = fk
+            ACTIVE_FORKER[0] = fk
             try:
                 out = self.run(f, *args, **kwargs)
             finally:
                 self.trace.forker = None
-            results.append((list(fk.pc), out))
+                ACTIVE_FORKER[0] = None
+            results.append((PathCondition(fk.pc, fk.marks), out))
             trail = fk.trail
             for i in range(len(prefix), len(trail)):
                 flat, val = trail[i]
